@@ -1,5 +1,7 @@
 import TT.Model.Pipe
 import TT.Lemmas.Pipe
+import TT.Model.H3Streams
+import TT.Lemmas.H3Streams
 /-!
 # C02  TCP tunnel relays the byte stream exactly, both ways
 
@@ -112,3 +114,135 @@ example : (run {} [.chunk [1, 2, 3], .accepted 2, .unit, .unit, .timeout, .unit,
     .eof, .unit, .unit]).delivered = [1, 2, 3] := by decide
 
 end TT.Pipe
+
+/-! ### the HTTP/3 codec's stream table (`http3_codec.rs`, model `TT.H3Streams`)
+
+An HTTP/3 tunnel's two directions end independently; the codec's table says which half of which
+stream is still open. -/
+namespace TT.H3Streams
+
+def Op.streamId : Op → Nat
+  | .request id | .readFinished id | .close id | .shutdown id _ | .failed id => id
+
+/-- one entry per stream, and no entry with both directions shut down: such a stream is removed -/
+def Inv (t : Table) : Prop :=
+  (t.map (·.id)).Nodup ∧ ∀ e ∈ t, ¬ (e.readShut = true ∧ e.writeShut = true)
+
+theorem table_invariant (ops : List Op) : Inv (run [] ops) := by
+  have hstep : ∀ (t : Table) (op : Op), Inv t → Inv (step t op) := by
+    intro t op h
+    cases op with
+    | request id =>
+      refine ⟨?_, ?_⟩
+      · show ((t.filter (fun x => x.id != id) ++ [(⟨id, false, false⟩ : Entry)]).map (fun x : Entry => x.id)).Nodup
+        rw [List.map_append, List.nodup_append]
+        refine ⟨filter_ids_nodup _ h.1, by simp, ?_⟩
+        intro a ha b hb
+        rcases List.mem_map.1 ha with ⟨x, hx, rfl⟩
+        have hb' : b = id := by simpa using hb
+        rw [hb']
+        exact filter_ne_id t id x hx
+      · intro e he
+        rcases List.mem_append.1 he with he | he
+        · exact h.2 e (List.mem_filter.1 he).1
+        · have : e = ⟨id, false, false⟩ := by simpa using he
+          rw [this]
+          simp
+    | readFinished id => exact h
+    | close id => exact ⟨shutdown_nodup t id _ h.1, shutdown_no_dead t id _ h.2⟩
+    | shutdown id d => exact ⟨shutdown_nodup t id _ h.1, shutdown_no_dead t id _ h.2⟩
+    | failed id => exact ⟨shutdown_nodup t id _ h.1, shutdown_no_dead t id _ h.2⟩
+  have hrun : ∀ (ops : List Op) (t : Table), Inv t → Inv (run t ops) := by
+    intro ops
+    induction ops with
+    | nil => intro t h; exact h
+    | cons op ops ih => intro t h; exact ih (step t op) (hstep t op h)
+  exact hrun ops [] ⟨List.Pairwise.nil, fun e he => by cases he⟩
+
+/-- **The end of the client's sending side leaves the response side alone** (the table is not
+touched: the stream stays until its own writer ends it) -/
+theorem read_finished_keeps_response_side (t : Table) (id : Nat) : step t (.readFinished id) = t := rfl
+
+/-- a reset by the client removes the stream, whatever state it was in -/
+theorem reset_removes_stream (t : Table) (id : Nat) (h : Inv t) : ∀ e ∈ step t (.close id), e.id ≠ id := by
+  have _ := h
+  exact shutdown_both_removes t id
+
+/-- shutting one half down keeps the stream with exactly that half closed; the second half removes it,
+in either order -/
+theorem halves_end_independently (t : Table) (id : Nat) (h : Inv t) (he : ⟨id, false, false⟩ ∈ t) :
+    (⟨id, true, false⟩ ∈ step t (.shutdown id .read)) ∧
+    (⟨id, false, true⟩ ∈ step t (.shutdown id .write)) ∧
+    (∀ e ∈ run t [.shutdown id .read, .shutdown id .write], e.id ≠ id) ∧
+    (∀ e ∈ run t [.shutdown id .write, .shutdown id .read], e.id ≠ id) := by
+  have hf : t.find? (fun x => x.id == id) = some ⟨id, false, false⟩ := find_of_mem h.1 he
+  have hr : step t (.shutdown id .read) = t.map (fun x => if x.id == id then
+      { x with readShut := true, writeShut := false } else x) :=
+    shutdown_keeps t id .read _ hf (by simp [Dir.closesRead, Dir.closesWrite])
+  have hw : step t (.shutdown id .write) = t.map (fun x => if x.id == id then
+      { x with readShut := false, writeShut := true } else x) :=
+    shutdown_keeps t id .write _ hf (by simp [Dir.closesRead, Dir.closesWrite])
+  have hmr : (⟨id, true, false⟩ : Entry) ∈ step t (.shutdown id .read) := by
+    rw [hr]
+    exact List.mem_map.2 ⟨_, he, by simp⟩
+  have hmw : (⟨id, false, true⟩ : Entry) ∈ step t (.shutdown id .write) := by
+    rw [hw]
+    exact List.mem_map.2 ⟨_, he, by simp⟩
+  have hnr : ((step t (.shutdown id .read)).map (·.id)).Nodup := shutdown_nodup t id _ h.1
+  have hnw : ((step t (.shutdown id .write)).map (·.id)).Nodup := shutdown_nodup t id _ h.1
+  refine ⟨hmr, hmw, ?_, ?_⟩
+  · show ∀ e ∈ shutdownStream (step t (.shutdown id .read)) id .write, e.id ≠ id
+    rw [shutdown_removes _ id .write _ (find_of_mem hnr hmr) (by simp [Dir.closesRead, Dir.closesWrite])]
+    exact filter_ne_id _ id
+  · show ∀ e ∈ shutdownStream (step t (.shutdown id .write)) id .read, e.id ≠ id
+    rw [shutdown_removes _ id .read _ (find_of_mem hnw hmw) (by simp [Dir.closesRead, Dir.closesWrite])]
+    exact filter_ne_id _ id
+
+/-- **Streams do not disturb each other**: an operation on one stream leaves every other stream's
+entry exactly as it was -/
+theorem other_streams_untouched (t : Table) (op : Op) (e : Entry) (hne : e.id ≠ op.streamId) :
+    e ∈ step t op ↔ e ∈ t := by
+  cases op with
+  | request id =>
+    have hne' : e.id ≠ id := hne
+    show e ∈ t.filter (fun x => x.id != id) ++ [⟨id, false, false⟩] ↔ e ∈ t
+    rw [List.mem_append, List.mem_filter]
+    constructor
+    · rintro (h | h)
+      · exact h.1
+      · have : e = ⟨id, false, false⟩ := by simpa using h
+        rw [this] at hne'
+        exact absurd rfl hne'
+    · intro h
+      exact Or.inl ⟨h, by simpa using hne'⟩
+  | readFinished id => exact Iff.rfl
+  | close id => exact shutdown_mem_of_ne t id _ e hne
+  | shutdown id d => exact shutdown_mem_of_ne t id _ e hne
+  | failed id => exact shutdown_mem_of_ne t id _ e hne
+
+/-- an operation on a stream that is not (or no longer) in the table changes nothing - except a new
+request, which adds exactly one open entry -/
+theorem unknown_stream_is_noop (t : Table) (op : Op) (hu : ∀ e ∈ t, e.id ≠ op.streamId) :
+    step t op = match op with
+      | .request id => t ++ [⟨id, false, false⟩]
+      | _ => t := by
+  cases op with
+  | request id =>
+    show t.filter (fun x => x.id != id) ++ [⟨id, false, false⟩] = t ++ [⟨id, false, false⟩]
+    have : t.filter (fun x => x.id != id) = t := by
+      rw [List.filter_eq_self]
+      intro a ha
+      have hu' : a.id ≠ id := hu a ha
+      simpa using hu'
+    rw [this]
+  | readFinished id => rfl
+  | close id => exact shutdown_of_unknown t id _ hu
+  | shutdown id d => exact shutdown_of_unknown t id _ hu
+  | failed id => exact shutdown_of_unknown t id _ hu
+
+example : run [] [.request 0, .shutdown 0 .both, .request 4, .readFinished 4, .shutdown 4 .read, .request 8,
+    .shutdown 4 .write, .close 8, .failed 8] = [] := by decide
+example : run [] [.request 0, .request 4, .readFinished 0, .shutdown 0 .read, .shutdown 4 .write]
+    = [⟨0, true, false⟩, ⟨4, false, true⟩] := by decide
+
+end TT.H3Streams
